@@ -20,6 +20,12 @@ def jobs(seed=0):
     add("conv.to_znx64.ref", "h_to_znx64", ["reim/reim_conversions.c"] + COMMONS, 0, 1, ["reim_to_znx64_ref"], "S2")
     add("conv.to_znx64.bnd50_fma", "h_to_znx64", ["reim/reim_conversions_avx.c"], 1, 2, ["reim_to_znx64_avx2_bnd50_fma"], "S4")
     add("conv.to_znx64.bnd63_fma", "h_to_znx64", ["reim/reim_conversions_avx.c"], 2, 2, ["reim_to_znx64_avx2_bnd63_fma"], "S4")
+    for lb in (50, 51, 52, 63):
+        for lane in (0, 9):
+            add("conv.to_znx64.dispatch.lb%d.lane%d" % (lb, lane), "h_to_znx64_dispatch",
+                ["reim/reim_conversions.c", "reim/reim_conversions_avx.c", "reim/reim_execute.c"] + COMMONS, 0, 8,
+                ["init_reim_to_znx64_precomp", "reim_to_znx64"], "S4", extra={"LOG2BOUND": lb, "GLANE": lane},
+                tier="quick" if lane == 0 else "thorough")
     TN = ["reim/reim_to_tnx_ref.c", "reim/reim_to_tnx_avx.c"] + COMMONS
     for ovh in range(0, 49):
         for lane in (0, 1):
